@@ -638,7 +638,21 @@ def gd_judge(sols):
     rhs = w(sols[-1]) - w(sols[0])
     scale = max(sum(abs(v) for v in per.values()), abs(rhs))
     est = abs(r1 - r2)
-    return {"lhs": lhs, "rhs": rhs, "scale": scale, "est": est, "n": n, "t1": t1, "r1": r1}
+    # known finding gd-dh-slope-depends-on-aw: in the Pitzer model A0 follows the water activity (p_sat in calc_rho_0)
+    # while pitzer() treats it as a constant. With ln gamma_i = dGex/dm_i at fixed A0, the relation picks up
+    # integral (dGex/dA0) dA0, dGex_DH/dA0 = -(4 I / b) ln(1 + b sqrt I), b = 1.2
+    pred = 0.0
+    if all(s.get("pz") and s["pz"]["kind"] == "pitzer" for s in sols):
+        def h(sol):
+            mu = unhex(sol["pz"]["mu"])
+            return -(4.0 * mu / 1.2) * math.log(1.0 + 1.2 * math.sqrt(mu))
+
+        def dsum(step):
+            pts = sols[::step]
+            return sum(0.5 * (h(a) + h(b)) * (unhex(b["pz"]["a0"]) - unhex(a["pz"]["a0"])) for a, b in zip(pts[:-1], pts[1:]))
+        d1, d2 = dsum(1), dsum(2)
+        pred = d1 + (d1 - d2) / 3.0
+    return {"lhs": lhs, "rhs": rhs, "scale": scale, "est": est, "n": n, "t1": t1, "r1": r1, "a0_pred": pred}
 
 
 def path_input(names, path, npts, with_pz=False):
@@ -653,7 +667,7 @@ def run_gd_path(ctx, exe, db, extra, names, path, stats):
     """adaptive refinement; returns (verdict, info) with verdict in ok / bad / unjudged"""
     info = {}
     for npts in (17, 33, 65, 129, 257):
-        ses = session(ctx, exe, db, extra, [f"run 0 {hs(path_input(names, path, npts))}\n"])
+        ses = session(ctx, exe, db, extra, [f"run 0 {hs(path_input(names, path, npts, True))}\n"])
         if ses["db"] != 0 or not ses["runs"]:
             return "unjudged", {"why": "database"}
         run = ses["runs"][0]
@@ -672,8 +686,12 @@ def run_gd_path(ctx, exe, db, extra, names, path, stats):
             return "unjudged", {"why": "zero scale"}
         if j["est"] <= 3e-6 * j["scale"]:
             stats["gd_npts"][npts] = stats["gd_npts"].get(npts, 0) + 1
-            ok = abs(j["lhs"] - j["rhs"]) <= TOL_GD * j["scale"]
-            return ("ok" if ok else "bad"), info
+            resid = j["lhs"] - j["rhs"]
+            if abs(resid) <= TOL_GD * j["scale"]:
+                return "ok", info
+            if abs(resid - j["a0_pred"]) <= TOL_GD * j["scale"]:
+                return "known-a0", info       # exceeds the tolerance, and the A0(a_w) effect accounts for the excess
+            return "bad", info
     return "unjudged", {"why": "discretisation not converged", "est": info.get("est"), "scale": info.get("scale"),
                         "lhs": info.get("lhs"), "rhs": info.get("rhs")}
 
@@ -729,6 +747,8 @@ def run_pz_db(ctx, exe, dbname, extra, npaths, nrand, stats):
             out["corr"].append({"db": dbname, "extra": extra, "case": cases[i], "where": "pzrand", "problems": pr[:6]})
     # (ii) Gibbs-Duhem along composition paths
     paths = [G.gd_path(ctx.rng, names) for _ in range(npaths)]
+    if dbname == "pitzer.dat" and extra is None:
+        paths.append(dict(PROBE_A0))
 
     def one(p):
         return run_gd_path(ctx, exe, db, ex, names, p, stats)
@@ -744,14 +764,17 @@ def run_pz_db(ctx, exe, dbname, extra, npaths, nrand, stats):
         stats["gd_temp_hist"][min(9, int(p["temp"] // 10))] += 1
         rel = abs(info["lhs"] - info["rhs"]) / info["scale"]
         stats["gd_max_rel"] = max(stats["gd_max_rel"], rel)
+        stats["gd_max_rel_corr"] = max(stats["gd_max_rel_corr"], abs(info["lhs"] - info["rhs"] - info["a0_pred"]) / info["scale"])
         for aw, pred, sm, phi in info["aw"]:
             stats["aw_evals"] += 1
             stats["sum_m_hist"][max(0, min(5, int(math.floor(math.log10(max(sm, 1e-5))) + 4)))] += 1
             if not abs(aw - pred) <= TOL_AW:
                 out["bad"].append({"kind": "aw", "db": dbname, "extra": extra, "path": p, "aw": aw, "pred": pred, "sum_m": sm, "phi": phi})
-        if verdict == "bad":
+        if verdict in ("bad", "known-a0"):
             out["bad"].append({"kind": "gibbs-duhem", "db": dbname, "extra": extra, "path": p, "lhs": info["lhs"], "rhs": info["rhs"],
-                               "scale": info["scale"], "rel": rel, "npts": info["npts"]})
+                               "scale": info["scale"], "rel": rel, "npts": info["npts"], "a0_pred": info["a0_pred"],
+                               "rel_after_a0_correction": abs(info["lhs"] - info["rhs"] - info["a0_pred"]) / info["scale"],
+                               "known": verdict == "known-a0"})
         elif len(ctx.cov["samples"]) < 4:
             ctx.sample({"gibbs_duhem_path": {"db": label, "salts": p["salts"], "temp": p["temp"], "npts": info["npts"],
                                              "lhs": info["lhs"], "rhs": info["rhs"], "rel": rel}})
@@ -764,7 +787,7 @@ def new_stats():
             "not_converged": 0, "llnl_interp": 0, "selection_flag_diff_same_value": 0, "db_load_failed": [],
             "temp_hist": [0] * 10, "mu_hist": [0] * 6, "pz_evals": 0, "pz_params": 0, "pz_types": {}, "pz_rand": 0,
             "pz_patm_gt1": 0, "aw_evals": 0, "gd_paths": 0, "gd_verdicts": {}, "gd_unjudged_why": {}, "gd_label": {},
-            "gd_temp_hist": [0] * 10, "gd_max_rel": 0.0, "sum_m_hist": [0] * 6, "gd_npts": {}, "pz_dbs_loaded": []}
+            "gd_temp_hist": [0] * 10, "gd_max_rel": 0.0, "gd_max_rel_corr": 0.0, "sum_m_hist": [0] * 6, "gd_npts": {}, "pz_dbs_loaded": []}
 
 
 def run(ctx):
@@ -836,18 +859,23 @@ def run_checks(ctx, ok):
             if not (vlib.REPO / "database" / dbname).exists():
                 continue
             res = run_pz_db(ctx, exe, dbname, extra, npaths, nrand, stats)
-            for b in res["bad"]:
+            bad = sorted(res["bad"], key=lambda b: (finding_key(b) is not None, -b.get("rel", 1.0)))
+            for b in bad:
                 key = finding_key(b)
                 if key:
-                    ctx.finding(key, f"{res['label']}: {b['kind']} oracle fails", dict(b, kind2=b["kind"], kind="pzbad"))
+                    if key in ctx.findings_seen or any(key in v[2] for v in ctx.violations):
+                        continue
+                    ctx.finding(key, f"{res['label']}: Gibbs-Duhem residual {b['rel']:.3g} > 1e-4 at {b['path']['temp']} C, "
+                                     f"{b['rel_after_a0_correction']:.3g} after removing the effect of A0(a_w)",
+                                dict(b, kind2=b["kind"], kind="pzbad"))
                 else:
                     ctx.violation(f"{res['label']}: {b['kind']} oracle fails on real output "
                                   f"(rel {b.get('rel', abs(b.get('aw', 0) - b.get('pred', 0))):.3g})", dict(b, kind2=b["kind"], kind="pzbad"))
-                break
+                    break
             corr_broken += res["corr"]
-            if ctx.violations:
+            if any(FINDING_A0 not in v[2] for v in ctx.violations):
                 break
-    if corr_broken and not ctx.violations:
+    if corr_broken and not any(FINDING_A0 not in v[2] for v in ctx.violations):
         ctx.violation("pitzer()/sit() arrays differ from Model/Pitzer.lean but the Gibbs-Duhem and water-activity oracles "
                       "hold on every path tried", dict(corr_broken[0], kind="pzcorr"), found_input=False)
     ctx.cov["evaluations"] = stats["evals"] + stats["pz_evals"] + stats["aw_evals"] + stats["gd_verdicts"].get("ok", 0) + stats["gd_verdicts"].get("bad", 0)
@@ -866,7 +894,8 @@ def run_checks(ctx, ok):
         "parameters_evaluated": stats["pz_params"], "parameter_types": stats["pz_types"], "aw_oracle_evaluations": stats["aw_evals"],
         "gd_paths": stats["gd_paths"], "gd_verdicts": stats["gd_verdicts"], "gd_unjudged_why": stats["gd_unjudged_why"],
         "gd_path_kinds": stats["gd_label"], "gd_temperature_histogram": stats["gd_temp_hist"], "gd_points_needed": stats["gd_npts"],
-        "gd_max_relative_residual": stats["gd_max_rel"], "log10_sum_m_histogram_-4..1": stats["sum_m_hist"],
+        "gd_max_relative_residual": stats["gd_max_rel"],
+        "gd_max_relative_residual_after_A0_correction": stats["gd_max_rel_corr"], "log10_sum_m_histogram_-4..1": stats["sum_m_hist"],
         "skipped_patm_gt_1": stats["pz_patm_gt1"]}
     if stats["db_load_failed"]:
         ctx.cov["databases_not_loaded"] = stats["db_load_failed"]
@@ -883,7 +912,16 @@ def run_checks(ctx, ok):
                       {"broken": ctx.proof_broken}, found_input=False)
 
 
+FINDING_A0 = "gd-dh-slope-depends-on-aw"
+# fixed probe that reproduces the finding on pitzer.dat: KCl 4.5 -> 0.01 molal at 100 C
+PROBE_A0 = {"A": {"K": 4.5, "Cl": 4.5}, "B": {"K": 0.01, "Cl": 0.01}, "temp": 100.0, "label": "probe",
+            "salts": ["KCl", "->", "KCl"]}
+
+
 def finding_key(b):
+    """a Gibbs-Duhem excess that the recorded variation of A0 with the water activity accounts for"""
+    if b.get("kind") == "gibbs-duhem" and b.get("known"):
+        return FINDING_A0
     return None
 
 
@@ -920,7 +958,9 @@ def replay_case(ctx, exe, data):
         info.pop("sols", None)
         print("replay result:", verdict, {k: v for k, v in info.items() if k != "aw"}, info.get("aw"))
         awbad = any(abs(a - p) > TOL_AW for a, p, _, _ in info.get("aw", []))
-        if verdict == "bad" or awbad:
+        if verdict == "known-a0" and not awbad:
+            ctx.finding(FINDING_A0, "replayed path: Gibbs-Duhem residual above 1e-4, accounted for by A0(a_w)", data)
+        elif verdict == "bad" or awbad:
             ctx.violation("replayed path still violates the oracle", data)
     elif kind in ("pzcorr", "pzbad"):
         db = vlib.REPO / "database" / data["db"]
